@@ -25,11 +25,11 @@ pub fn c11(ctx: &mut Ctx, tier: &str, seed: u64) {
         dom0.extend(gen::norm_extra(win, tier, seed));
         let dom: Vec<Vec<u8>> = dedup_keep_order(dom0).into_iter().filter(|s| well_formed(win, s)).collect();
         for s in &dom {
+            let rp = format!("norm {} {}", e, hex(s));
+            at(rp.clone());
             let cs = comps(win, s);
             let n = normalize_b(win, s);
             let cn = comps(win, &n);
-            let rp = format!("norm {} {}", e, hex(s));
-            at(rp.clone());
             let dots = cs.iter().filter(|c| matches!(c, SComp::Cur | SComp::Parent)).count();
             ctx.case(dots > 0 && cs.len() >= 2, (win, s));
             ctx.tally(&format!("{}:dots={}", e, dots.min(4)));
@@ -105,9 +105,9 @@ pub fn c12(ctx: &mut Ctx, tier: &str, seed: u64) {
         let mut dom = if win { dom_win(tier, seed) } else { dom_unix(tier, seed) };
         dom.extend(strings_b(b".ab", if t { 7 } else { 6 }));
         for s in &dom {
-            let cs = comps(win, s);
             let rp = format!("fname {} {}", e, hex(s));
             at(rp.clone());
+            let cs = comps(win, s);
             let (f, st, ex): (Option<Vec<u8>>, Option<Vec<u8>>, Option<Vec<u8>>) = if win {
                 let p = WindowsPath::new(s);
                 (p.file_name().map(|x| x.to_vec()), p.file_stem().map(|x| x.to_vec()), p.extension().map(|x| x.to_vec()))
@@ -253,11 +253,11 @@ pub fn c13(ctx: &mut Ctx, tier: &str, seed: u64) {
             let f = file_name_b(win, s);
             let oldp = parent_b(win, s);
             for x in &xs {
+                let rp = format!("setext {} {} {}", e, hex(s), hex(x));
+                at(rp.clone());
                 if x.iter().any(|b| is_sep(win, *b)) {
                     continue;
                 }
-                let rp = format!("setext {} {} {}", e, hex(s), hex(x));
-                at(rp.clone());
                 let res = crate::util::quiet_catch(|| set_ext_b(win, s, x));
                 ctx.case(f.is_some() && s.last().map(|b| is_sep(win, *b) || *b == b'.').unwrap_or(false), (win, s, x));
                 ctx.tally(&format!("{}:{}", e, if f.is_some() { "file-name" } else { "no-file-name" }));
@@ -376,6 +376,9 @@ pub fn c16(ctx: &mut Ctx, tier: &str, seed: u64) {
     for s in &d {
         for src_win in [false, true] {
             let se = gen::e(src_win);
+            let de = gen::e(!src_win);
+            let rp = format!("conv {} {} {}", se, de, hex(s));
+            at(rp.clone());
             let cs = comps(src_win, s);
             // same encoding: same bytes
             let same: Vec<u8> = if src_win { WindowsPath::new(s).with_windows_encoding().into_vec() } else { UnixPath::new(s).with_unix_encoding().into_vec() };
@@ -399,8 +402,6 @@ pub fn c16(ctx: &mut Ctx, tier: &str, seed: u64) {
             // other encoding
             let dst_win = !src_win;
             let de = gen::e(dst_win);
-            let rp = format!("conv {} {} {}", se, de, hex(s));
-            at(rp.clone());
             let conv: Vec<u8> = if src_win { WindowsPath::new(s).with_unix_encoding().into_vec() } else { UnixPath::new(s).with_windows_encoding().into_vec() };
             let convc: Result<Vec<u8>, CheckedPathError> = if src_win { WindowsPath::new(s).with_unix_encoding_checked().map(|x| x.into_vec()) } else { UnixPath::new(s).with_windows_encoding_checked().map(|x| x.into_vec()) };
             let cd = comps(dst_win, &conv);
@@ -531,11 +532,11 @@ pub fn c17(ctx: &mut Ctx, tier: &str, seed: u64) {
         }
         let d = dedup_keep_order(d);
         for s in &d {
+            let rp = format!("valid {} {}", e, hex(s));
+            at(rp.clone());
             let cs = spec_comps(win, s);
             let want = spec::names_valid(&cs, win);
             let got = if win { WindowsPath::new(s).is_valid() } else { UnixPath::new(s).is_valid() };
-            let rp = format!("valid {} {}", e, hex(s));
-            at(rp.clone());
             ctx.case(!want || cs.len() >= 2, (win, s));
             ctx.tally(&format!("{}:{}", e, if want { "valid" } else { "invalid" }));
             if got != want {
